@@ -124,6 +124,28 @@ def discard_convs(tier, rng):
     return cases
 
 
+def starttls_convs(tier, rng):
+    """the octets of a chunked transfer that was open in plaintext do not count against a message sent inside TLS after the upgrade: a
+    message within the limit is accepted (TAG=fits: no 552 anywhere in the conversation)"""
+    cases = []
+    for lm in (0, 1):
+        for k, n in ((60, 80), (100, 100), (1, 100)):
+            for how in ("bdat", "data"):
+                c = g.Conv(dict(tls="avail", lmtp=lm, maxmsg=100, maxline=2000))
+                P.envelope(c, bool(lm))
+                c.add(b"BDAT %d\r\n" % k + b"p" * k, DATA=g.ddec(ret="prop"))
+                c.starttls()
+                P.envelope(c, bool(lm))
+                if how == "bdat":
+                    c.add(b"BDAT %d LAST\r\n" % n + b"t" * n, DATA=g.ddec())
+                else:
+                    c.add(b"DATA\r\n"); c.add(b"t" * (n - 2) + b"\r\n.\r\n", DATA=g.ddec())
+                P.markers(c, 1)
+                for seg in ("line", "one"):
+                    cases.append(c.case(seg=seg, rng=rng) + "\tTAG=fits")
+    return cases
+
+
 def groups(tier, rng):
     L = 5 if tier == "quick" else 7
     table = dc.step_table([0, 1, 3])
@@ -147,7 +169,8 @@ def groups(tier, rng):
             Group("dr/random-limits", rnd, theorems=THEOREMS),
             Group("conv/data-limits", P.data_convs(tier, rng, limits=(1,)), project=_proj, theorems=THEOREMS),
             Group("conv/size-and-bdat", size_convs(tier, rng), project=_proj, theorems=THEOREMS),
-            Group("conv/refused-with-552-is-discarded", discard_convs(tier, rng), project=_proj, theorems=THEOREMS)]
+            Group("conv/refused-with-552-is-discarded", discard_convs(tier, rng), project=_proj, theorems=THEOREMS),
+            Group("conv/budget-across-starttls", starttls_convs(tier, rng), project=_proj, theorems=THEOREMS)]
 
 
 def replay_groups(path):
